@@ -1,4 +1,3 @@
-import Bch.Model.Base58
-namespace Bch.Props.C07
-theorem dummy : 1 + 1 = 2 := rfl
-end Bch.Props.C07
+import Bch.Props.C07a
+import Bch.Props.C07b
+/-! Property C07: Base58 / Base58Check theorems live in `C07a`, bech32 / ConvertBits theorems in `C07b`. -/
